@@ -140,6 +140,8 @@ def gen_ops(rng, n, tier):
                 else:
                     order = [rng.randrange(max(k, 1)) for _ in range(k)]
                 c['order'] = order
+            if rng.random() < 0.3:
+                c['ref'] = rng.choice([2, 3])
         if op in ('rm', 'gt', 'lt', 'ex', 'mod', 'pat') and k >= 2 and rng.random() < 0.25:
             # a track that holds one observation object at several positions: a circuit closed with track.addObs(track.getFirstObs()), two laps of the same fixes.
             # The operators designate POSITIONS: the last m positions hold again the objects of positions again[0..m-1]
@@ -187,7 +189,14 @@ def run_ops(case):
     else:
         def T(ms):
             o = ObsTime.readUnixTime(max(ms, 0) // 1000); o.ms = max(ms, 0) % 1000; return o
-        r = t.extractSpanTime(T(case['a']), T(case['b']))
+        if case.get('ref'):
+            # the documented one-argument form: the span of a reference track, from its first to its last observation (whatever their order in time)
+            from tracklib.core import ENUCoords, Obs, Track
+            mids = [T((case['a'] + case['b']) // 2)] if case['ref'] == 3 else []
+            ref = Track([Obs(ENUCoords(0, 0, 0), o) for o in [T(case['a'])] + mids + [T(case['b'])]])
+            r = t.extractSpanTime(ref)
+        else:
+            r = t.extractSpanTime(T(case['a']), T(case['b']))
     res = {'ids': ids_of(r), 'src': ids_of(t), 'names': r.getListAnalyticalFeatures(), 'names0': names0}
     if 'f' in res['names'] and r.size():
         res['feat'] = [float(v) for v in r['f']]
